@@ -62,16 +62,22 @@ Divisors(n) == LET lo == { d \in 1..Min2(n, 1000) : d * d <= n /\ n % d = 0 } IN
 Thr(i)         == <<rs[i].num, rs[i].den>>
 \* the part of a per-tick reference recorded at or after time s
 Since(ref, s)  == IF s = 0 THEN ref ELSE [x \in { y \in DOMAIN ref : y >= s } |-> ref[x]]
-SumFor(i, c, a) == AlignedSum(Since(a[Counted(rs[i])], c.since), c.bl, now, rs[i].I)
+SumForT(i, c, a, t) == AlignedSum(Since(a[Counted(rs[i])], c.since), c.bl, t, rs[i].I)
+SumFor(i, c, a) == SumForT(i, c, a, now)
 \* candidates under which rule i lets batch b pass / blocks it with reported value v
 PassCands(i, b)     == { c \in cand[i] : ~Exceeds(SumFor(i, c, adm), b, Thr(i)) }
 BlockCands(i, b, v) == { c \in cand[i] : SumFor(i, c, adm) = v /\ Exceeds(v, b, Thr(i)) }
+\* the same at the instant t at which the request reached the reject rules (a pacing rule ahead of them may have made it wait)
+PassCandsT(i, b, t)     == { c \in cand[i] : ~Exceeds(SumForT(i, c, adm, t), b, Thr(i)) }
+BlockCandsT(i, b, v, t) == { c \in cand[i] : SumForT(i, c, adm, t) = v /\ Exceeds(v, b, Thr(i)) }
+\* a rule marked pace is a throttling rule with an unbounded queue: it never rejects, it only delays (property C10 judges pacing)
+IsPace(i) == Has(rs[i], "pace") /\ rs[i].pace
 \* the hinted candidate: the predicted bucket length, counting from the latest instant still possible
 Hint(i) == [bl |-> rs[i].bl, since |-> MaxOr0({ c.since : c \in cand[i] })]
 
 \* the decision under the hinted geometry: printed as the expected value of a mismatch
 HintDecision(res, b) ==
-    LET S == { i \in RulesOf(rs, res) : Exceeds(SumFor(i, Hint(i), adm), b, Thr(i)) } IN
+    LET S == { i \in RulesOf(rs, res) : ~IsPace(i) /\ Exceeds(SumFor(i, Hint(i), adm), b, Thr(i)) } IN
     IF S = {} THEN [ok |-> TRUE]
     ELSE [ok |-> FALSE, bt |-> "flow", rule |-> MinOf(S), val |-> SumFor(MinOf(S), Hint(MinOf(S)), adm)]
 
@@ -103,24 +109,28 @@ TReq ==
     /\ IsEvent("req")
     /\ LET res  == Ev.res
            b    == Ev.b
-           mine == RulesOf(rs, res)
+           mine == { i \in RulesOf(rs, res) : ~IsPace(i) }
+           tn   == IF Has(Ev, "t") THEN Ev.t ELSE now       \* the instant the call returned (= arrival + what a pacing rule made it wait)
+           \* rules are consulted in list order: rule i is reached after the wait iff a pacing rule of the resource precedes it
+           at(i) == IF \E j \in RulesOf(rs, res) : j < i /\ IsPace(j) THEN tn ELSE now
        IN
-       IF Ev.ok
-         THEN /\ Judge(\A i \in mine : PassCands(i, b) # {}, HintDecision(res, b))
-              /\ cand' = [i \in DOMAIN cand |-> IF i \in mine THEN Keep(i, PassCands(i, b)) ELSE cand[i]]
-              /\ adm' = [adm EXCEPT ![res] = Admit(@, now, b)]          \* admitted: recorded with its batch
-         ELSE /\ Judge(/\ Ev.bt = "flow"
-                       /\ Ev.rule \in mine
-                       /\ \A i \in mine : i < Ev.rule => PassCands(i, b) # {}
-                       /\ BlockCands(Ev.rule, b, Ev.val) # {},
-                       HintDecision(res, b))
-              /\ cand' = [i \in DOMAIN cand |->
-                             IF i \in mine /\ i < Ev.rule THEN Keep(i, PassCands(i, b))
-                             ELSE IF i = Ev.rule /\ i \in mine THEN Keep(i, BlockCands(i, b, Ev.val))
-                             ELSE cand[i]]
-              /\ adm' = adm                                             \* rejected: no quota consumed
+       /\ tn >= now /\ now' = tn
+       /\ IF Ev.ok
+            THEN /\ Judge(\A i \in mine : PassCandsT(i, b, at(i)) # {}, HintDecision(res, b))
+                 /\ cand' = [i \in DOMAIN cand |-> IF i \in mine THEN Keep(i, PassCandsT(i, b, at(i))) ELSE cand[i]]
+                 /\ adm' = [adm EXCEPT ![res] = Admit(@, tn, b)]          \* admitted: recorded with its batch
+            ELSE /\ Judge(/\ Ev.bt = "flow"
+                          /\ Ev.rule \in mine
+                          /\ \A i \in mine : i < Ev.rule => PassCandsT(i, b, at(i)) # {}
+                          /\ BlockCandsT(Ev.rule, b, Ev.val, at(Ev.rule)) # {},
+                          HintDecision(res, b))
+                 /\ cand' = [i \in DOMAIN cand |->
+                                IF i \in mine /\ i < Ev.rule THEN Keep(i, PassCandsT(i, b, at(i)))
+                                ELSE IF i = Ev.rule /\ i \in mine THEN Keep(i, BlockCandsT(i, b, Ev.val, at(i)))
+                                ELSE cand[i]]
+                 /\ adm' = adm                                             \* rejected: no quota consumed
     /\ (failed' \/ GeoDrift(cand'))
-    /\ UNCHANGED <<now, rs, g>>
+    /\ UNCHANGED <<rs, g>>
 
 TTick ==
     /\ IsEvent("tick")
